@@ -308,7 +308,7 @@ fn render_some<T>(expr: T) -> TokenStream
 where
     T: quote::ToTokens,
 {
-    quote! { derive_more::core::option::Option::Some(#expr.as_dyn_error()) }
+    quote! { derive_more::core::option::Option::Some(#expr.__derive_more_as_dyn_error()) }
 }
 
 fn parse_fields<'input, 'state>(
